@@ -291,7 +291,9 @@ def targets_come_from_the_requested_places(eng, tier, seed):
             "violations": [], "functions_analysed": sorted(set(o["function"] for o in obs))}
 
 
-EXTRA_CHECKS = [determinism_census, hash_seed_probe, targets_come_from_the_requested_places]
+from .fsprobe import extra_spelling_probe  # noqa: E402  bounded stand-in for the file-system part (shared with C15)
+
+EXTRA_CHECKS = [determinism_census, hash_seed_probe, targets_come_from_the_requested_places, extra_spelling_probe]
 
 
 # ------------------------------------------------------------------------------------------------ bounded stand-ins
